@@ -7,8 +7,11 @@ from common import sh2
 LEVEL = "proof"
 MANIFEST = {
     "technique": "Coq proof over a hand-written Gallina model of the init-segment building API (state machine over "
-                 "CreateEmptyInit / AddEmptyTrack / Set...Descriptor) + differential correspondence (extracted OCaml vs Go) "
-                 "+ property search on the real API (invariant, encode/decode round trip, fragment decode)",
+                 "CreateEmptyInit / AddEmptyTrack / Set...Descriptor), of the avcC/hvcC decoder configuration record codecs "
+                 "(byte level) and of the whole init-segment tree in the C01 box model + differential correspondence "
+                 "(extracted OCaml vs Go: states, records, the bytes of InitSegment.Encode) + property search on the real API "
+                 "(invariant, every configuration field vs the values the parameter sets were generated from, encode/decode round "
+                 "trip, fragment decode) with parameter sets generated over the whole SPS/PPS syntax by C15's extracted serialisers",
     "level_text": "Theorems (coq/c19/C19Theorems.v), for every op sequence of fewer than 2^32-1 calls and every SPS parser: "
                   "moov children are mvhd, mvex and the contiguous traks in Traks order, track ids are exactly 1..n, one trex per "
                   "track with the same id in the same order, next-track id above every id (C19_inv, also after errors and a panic), "
@@ -17,12 +20,28 @@ MANIFEST = {
                   "timescale / volume of every track equal to the specification table (C19_tracks); each successful "
                   "Set...Descriptor call adds exactly one sample entry carrying the supplied parameter sets / configuration and the "
                   "parser's dimensions (C19_descriptor_*; AAC AudioSpecificConfig read back over a complete finite domain); elng "
-                  "round trip with the exact two-byte boundary. C19_roundtrip is PARTIAL: encode/decode equality of the whole "
-                  "tree, IsFragmented and fragment decoding are explored on the real code (search), not proved. Refutations: "
-                  "mp4a sample rate for 96000 Hz (known finding), one-byte elng tag, AddEmptyTrack on decoded inits (outside the quantifier).",
+                  "round trip with the exact two-byte boundary. Codec configuration at byte level, ALL profile values: avc.DecConfRec "
+                  "and hevc.DecConfRec write exactly Size() bytes (C19_avcrec_size, C19_hvcrec_size, every record) and decode after "
+                  "encoding to the canonical record / to themselves for every in-range record (C19_avcrec_roundtrip, "
+                  "C19_avcrec_roundtrip_exact: trailing chroma/bit-depth info for every profile except 66/77/88; C19_hvcrec_roundtrip: "
+                  "all 17 fields and every NAL unit array); the record put into the sample entry by a successful Set{AVC,HEVC}Descriptor "
+                  "is the one derived from the SPS and survives encode -> decode (C19_descriptor_avc_record, C19_descriptor_hevc_record). "
+                  "Whole init in the C01 box model: for every history the tree that is encoded passes File.AddChild's fragmented-init "
+                  "test and holds a trex for every track id (C19_built_fragmented_trex); the decision procedure roundtrip_ok (encode "
+                  "with C01's encoder, decode with C01's decoder, EQUAL tree, fragmented, trex) is sound "
+                  "(C19_roundtrip_checker_sound) and is evaluated, extracted, on every correspondence case. C19_roundtrip is still "
+                  "PARTIAL: proved over a complete small scope of 1951 histories (C19_roundtrip_partial: one or two tracks, seven media "
+                  "types, three kinds of language tag, every descriptor kind except AAC); for arbitrary op sequences the equality of "
+                  "the decoded tree and fragment decoding are explored (model: roundtrip_ok on every case; real code: search), not "
+                  "proved (needs a print-then-parse lemma per box kind of the C01 decoder). Refutations: mp4a sample rate for "
+                  "96000 Hz (known finding), one-byte elng tag, AddEmptyTrack on decoded inits (outside the quantifier).",
     "level_note": "Trusted: Coq kernel, extraction (ExtrOcamlBasic), OCaml/Go glue; the SPS parsers are arguments of the model "
-                  "(their answers are taken from the real parsers in the correspondence); box encoding/decoding is not modelled here "
-                  "(C01/C02); the correspondence is only as good as its generated histories.",
+                  "(their answers are taken from the real parsers in the correspondence; their correctness is C15's property); "
+                  "the box codec used for the tree is C01's model (imported read-only; its own correspondence is C01's check), boxes "
+                  "it has no leaf for (hvcC, esds, dac3, dec3, wvtt, stpp) are opaque byte payloads written by C19's models; "
+                  "C15Spec/C15HevcSpec serialisers + validity predicates generate the parameter sets (expected values come from "
+                  "the generating field values); in-memory chroma/bit-depth values of an avcC with profile 66/77/88 are not part "
+                  "of the box and compared modulo that; the correspondence is only as good as its generated histories.",
 }
 
 
@@ -42,6 +61,12 @@ def run(ctx):
         "CreateEmptyTrak, Set{AVC,HEVC,AAC,AC3,EC3,Wvtt,Stpp}Descriptor), MoovBox.AddChild, MvexBox.AddChild, CreateHdlr, "
         "MdhdBox.SetLanguage/GetLanguage, StsdBox.AddChild, CreateAvcC/CreateHvcC (decoder configuration records), "
         "aac.AudioSpecificConfig.Encode (through the C13 bit-writer model), Dac3Box/Dec3Box.ChannelInfo",
+        "model: coq/c19/C19RecModel.v is a hand transcription of avc.DecConfRec / hevc.DecConfRec Size, EncodeSW, Decode...DecConfRec",
+        "model: coq/c19/C19TreeModel.v builds the init's box tree with the leaf/container constructors of coq/c01/C01Model.v "
+        "(C01's encoder/decoder are trusted as models of the Go box codec to the extent of C01's own correspondence); "
+        "hvcC/esds/dac3/dec3/wvtt/stpp payloads are written by C19's own transcriptions",
+        "generator: coq/c15/C15Spec.v (nalu_sps, nalu_pps, sps_valid, pps_valid) and coq/c15/C15HevcSpec.v (hnalu_sps, hnalu_pps, "
+        "hsps_valid, hpps_valid) extracted into the C19 driver; the random choice of field values is a copy of ocaml/c15_driver.ml's",
         "spec: coq/c19/C19Spec.v media-type table, language packing formula, op validity (written by hand)",
         "avc.ParseSPSNALUnit / hevc.ParseSPSNALUnit are abstract function arguments of the model",
     ]
@@ -54,6 +79,9 @@ def run(ctx):
         "a history without AddEmptyTrack is not an init segment for any track: DecodeFile rejects a moov without trak; "
         "its round trip is evaluated at box level",
         "AAC sampling frequencies are non-negative ints below 2^24",
+        "generated parameter sets: picture sizes below 2^16 (16-bit fields of the sample entry), bit depths 8..14 (an HEVC SPS "
+        "with 16-bit samples, bit_depth_minus8 = 8, does not fit the 3-bit hvcC field: outside the scope), fewer than 32 SPS / "
+        "256 PPS per call, NAL units shorter than 2^16 bytes",
     ]
     exe, model = build(ctx)
     pr = ctx.proofs("c19", "C19Theorems.v")
@@ -110,7 +138,13 @@ def run(ctx):
                         "substream, descriptors not fitting the track). M: MoovBox.AddChild(trak) on every moov child pattern over "
                         "{mvhd, mvex, trak} up to length 6 (1093 patterns; covers the insertion branch that in-scope histories never reach). "
                         "L: elng encode/decode for fixed tags of length 0..26 (incl. NUL bytes) + %d random tags. P: stpp sample entry "
-                        "encode/decode for 216 fixed + %d random NUL-free string triples" % (n, n, n // 4, n // 4),
+                        "encode/decode for 216 fixed + %d random NUL-free string triples. Generated parameter sets: every one of the %d AVC and %d HEVC "
+                        "sets x {avc1+PS, avc3+PS, avc3 without PS} / {hvc1, hev1+PS, hev1 without PS} (SEI on a third), and 3 of 4 AVC/HEVC "
+                        "descriptor calls of the random histories. I: the bytes of InitSegment.Encode for the exhaustive, the generated-set and "
+                        "%d random histories vs C01's encoder on the model's tree, + roundtrip_ok on the model side. RA/RH: %d random avcC and "
+                        "%d hvcC records (every profile_idc of avc/sps.go x NoTrailingInfo exhaustively; counts 0..33/257, lengths up to 65540, "
+                        "out-of-range field values) -> Size, Encode, Decode; DA/DH: two mutated/truncated/random byte strings per record "
+                        "-> Decode (+ re-encoding)" % (n, n, n // 4, n // 4, npool, npool, n // 4 + n // 8, n // 2, n // 2),
     }
     ctx.cov["samples"] += [l[:300] for l in lines[5:7]] + [l[:400] for l in lines[-2:]]
     ctx.log("correspondence: %d cases, %d mismatches" % (len(lines), len(mism)))
@@ -148,9 +182,11 @@ def run(ctx):
     ctx.cov["rule"] = ("corr: exhaustive small scopes + %d in-scope + %d out-of-scope random histories executed on the real API, "
                        "state projection (outcomes, moov child order, next id, trex ids, per trak: tkhd id/volume/dims, mdhd timescale/"
                        "language, hdlr type/name, elng, mdia child order, media header, every sample entry with its configuration, the trak's box-tree shape) "
-                       "compared with the extracted model; distinct = distinct case lines. search: independent oracle on in-scope "
+                       "compared with the extracted model; avcC/hvcC records: Size/Encode/Decode observables; init bytes vs C01 encoder on the model tree; "
+                       "distinct = distinct case lines. search: independent oracle on in-scope "
                        "histories: ids/trex/next id/contiguity, handler+media header table, language rule, data reference index, trak tree shape, "
-                       "descriptor contents vs supplied (known dimensions, SPS bytes, ASC decoded back), Encode = EncodeSW, encode -> DecodeFile / DecodeFileSR -> equal "
+                       "descriptor contents vs supplied (dimensions, every avcC/hvcC field and the codec string vs the field values the SPS was generated from, "
+                       "parameter sets byte for byte, ASC decoded back; on the built AND on the decoded init), Encode = EncodeSW, encode -> DecodeFile / DecodeFileSR -> equal "
                        "Info dump + equal re-encoding + IsFragmented, single-track and multi-track fragments with samples decoded "
                        "against the init and read back through the trex" % (n, n))
 
